@@ -31,6 +31,8 @@ PROFILES = {
     'generic': gen.Profile(w_atom=5, w_pred=3, w_ident=1, w_neg=4, w_assert=1, w_bin=7, w_modal=4, w_quant=3, max_depth=3),
     'modal-heavy': gen.Profile(w_atom=6, w_pred=1, w_ident=0, w_neg=4, w_assert=0, w_bin=4, w_modal=14, w_quant=0, max_depth=3,
                                natoms=2, bin_ops=('Conjunction', 'Disjunction', 'MaterialConditional', 'Conditional')),
+    'modal-deep': gen.Profile(w_atom=4, w_pred=0, w_neg=3, w_assert=0, w_bin=3, w_modal=14, w_quant=0, max_depth=5, natoms=2,
+                              bin_ops=('Conjunction', 'Disjunction')),
     'identity-heavy': gen.Profile(w_atom=1, w_pred=8, w_ident=7, w_neg=4, w_assert=0, w_bin=3, w_modal=2, w_quant=1, max_depth=2,
                                   preds=((1, 0, 2), (0, 0, 1), (2, 0, 3)), consts=(A.const(0), A.const(1), A.const(2))),
     'quant-heavy': gen.Profile(w_atom=2, w_pred=7, w_ident=1, w_neg=3, w_assert=0, w_bin=5, w_modal=2, w_quant=8, max_depth=3,
@@ -198,8 +200,8 @@ def run_shard(shard, acc):
               phases=[Phase.generate], suppress_health_check=list(HealthCheck))
     @given(st.data())
     def body(data):
-        pname = ('generic', 'modal-heavy', 'modal-heavy', 'quant-heavy', 'identity-heavy')[data.draw(st.integers(0, 4))]
-        if pname == 'modal-heavy':
+        pname = ('generic', 'modal-heavy', 'modal-heavy', 'quant-heavy', 'identity-heavy', 'modal-deep')[data.draw(st.integers(0, 5))]
+        if pname in ('modal-heavy', 'modal-deep'):
             logic = data.draw(gen.logic_name(R.is_modal))
         elif pname == 'identity-heavy':
             logic = data.draw(gen.logic_name(R.is_classical))
@@ -208,7 +210,7 @@ def run_shard(shard, acc):
         else:
             logic = data.draw(gen.logic_name())
         prof = PROFILES[pname].for_logic(logic)
-        nprem = data.draw(st.integers(1, 3)) if pname == 'modal-heavy' else data.draw(st.integers(0, 3))
+        nprem = data.draw(st.integers(1, 3)) if pname in ('modal-heavy', 'modal-deep') else data.draw(st.integers(0, 3))
         prem = [data.draw(gen.sentence(prof)) for _ in range(nprem)]
         con = data.draw(gen.sentence(prof))
         case = prover.mk_case(logic, prem, con, group=data.draw(st.booleans()), rank=data.draw(st.booleans()),
